@@ -72,8 +72,11 @@ def main():
     spec = registry.PROPS[prop]
     kf = load_json(os.path.join(VERIF, "known_findings.json"), {"findings": [], "fixed": []})
     floors = load_json(os.path.join(VERIF, "floors.json"), {})
-    os.makedirs(os.path.join(VERIF, "evidence"), exist_ok=True)
-    rdir = os.path.join(VERIF, "replay", prop)
+    # runs against another tree (VERIF_REPO=<scratch>: self-tests, seeded changes) must not overwrite the evidence of /repo
+    scratch_run = os.path.realpath(os.environ.get("VERIF_REPO", "/repo")) != "/repo"
+    OUTROOT = os.path.join("/var/tmp", "verif_scratch_out") if scratch_run else VERIF
+    os.makedirs(os.path.join(OUTROOT, "evidence"), exist_ok=True)
+    rdir = os.path.join(OUTROOT, "replay", prop)
     os.makedirs(rdir, exist_ok=True)
     for f in os.listdir(rdir):
         os.unlink(os.path.join(rdir, f))
@@ -286,7 +289,7 @@ def main():
     ev = dict(property_id=prop, tier=tier, seed=seed, level=level, coverage=coverage,
               assumptions=spec.get("assumptions", []) + ["static analysis only: no nmtools code is executed; /repo working tree at run time is the input"],
               wall_s=wall, violations=len(violations))
-    json.dump(ev, open(os.path.join(VERIF, "evidence", prop + ".json"), "w"), indent=1)
+    json.dump(ev, open(os.path.join(OUTROOT, "evidence", prop + ".json"), "w"), indent=1)
 
     print("%s tier=%s: obligations=%d discharged=%d rule-instances=%d known=%d violations=%d broken=%d wall=%.1fs" % (
         prop, tier, cov["obligations"], cov["discharged"], cov["evaluations"], len(known), len(violations), len(broken), wall))
